@@ -9,7 +9,9 @@ import (
 	"fmt"
 	"strings"
 	"testing"
+	"unicode/utf8"
 
+	"github.com/theQRL/go-qrllib/dilithium"
 	"github.com/theQRL/go-qrllib/misc"
 	"github.com/theQRL/go-qrllib/qrl"
 	"pgregory.net/rapid"
@@ -70,6 +72,36 @@ type codecCase struct {
 	Size   int    `json:"size"` // 48 or 51 (public API), other multiples of 3 (hooked generic codec)
 	Bytes  pu.HB  `json:"bytes,omitempty"`
 	Phrase string `json:"phrase,omitempty"`
+}
+
+// phrases that are not valid UTF-8 (a letter replaced by a byte >= 0x80) travel as hex in replay files
+func (c codecCase) MarshalJSON() ([]byte, error) {
+	type plain codecCase
+	if utf8.ValidString(c.Phrase) {
+		return json.Marshal(plain(c))
+	}
+	raw := pu.HB(c.Phrase)
+	c.Phrase = ""
+	return json.Marshal(struct {
+		plain
+		PhraseHex pu.HB `json:"phrase_hex"`
+	}{plain(c), raw})
+}
+
+func (c *codecCase) UnmarshalJSON(d []byte) error {
+	type plain codecCase
+	var v struct {
+		plain
+		PhraseHex pu.HB `json:"phrase_hex"`
+	}
+	if err := json.Unmarshal(d, &v); err != nil {
+		return err
+	}
+	*c = codecCase(v.plain)
+	if v.PhraseHex != nil {
+		c.Phrase = string(v.PhraseHex)
+	}
+	return nil
 }
 
 func enc(size int, b []byte) (s string, o ev.Outcome) {
@@ -263,7 +295,15 @@ func checkPhrase(c *codecCase) (string, string) {
 
 var malKinds = []string{"unknown-typo", "unknown-prefix", "unknown-suffix", "upper-case", "mixed-case", "double-space", "leading-space", "trailing-space",
 	"tab-separator", "newline-separator", "nbsp-separator", "word-removed", "word-added", "30-words", "36-words", "wrong-decoder", "empty", "only-spaces", "comma-separated", "unicode-lookalike", "trailing-newline",
-	"word-removed+trailing-space", "word-removed+leading-space", "word-removed+double-space", "two-words-removed+two-spaces", "word-added+trailing-space", "suffix-on-six-letter-word", "word+NUL", "count-same-size-mod-256", "two-tabs", "two-newlines", "tab-and-newline-wrapped"}
+	"word-removed+trailing-space", "word-removed+leading-space", "word-removed+double-space", "two-words-removed+two-spaces", "word-added+trailing-space", "suffix-on-six-letter-word", "word+NUL", "count-same-size-mod-256", "two-tabs", "two-newlines", "tab-and-newline-wrapped",
+	"one-letter-upper-inside", "one-letter-other-byte", "token-outside-list-order", "rune-low-byte-is-the-letter"}
+
+// bytes that sit next to, or alias onto, the lower-case letters under arithmetic a decoder might do on them
+var nearLetterBytes = []byte{'`', '{', '@', '[', '|', '}', '~', '0', '9', '-', '\'', '_', '.', 0x7f, 0x80, 0x81, 0xe1, 0xfa, 0x01, 0x1f}
+
+// tokens that are not list words and fall before the first entry, after the last one, or are otherwise extreme in
+// any ordering of the list
+var outsideTokens = []string{"a", "aa", "aaa", "aaaaaa", "ab", "abacu", "zz", "zzz", "zzzzzz", "zv", "zuric", "zurica", "zuricz", "zuricha", "zurichz", "zygote", "zwei", "{", "~", "~~~~~~", "é", "0", "00", "-", "_"}
 
 func inList(w string) bool {
 	for _, x := range words {
@@ -282,12 +322,25 @@ func checkMalformed(c *codecCase) (string, string) {
 	if !o.IsString {
 		return "malformed/runtime-fault", fmt.Sprintf("refusal is not one of the library's explicit messages: %s", o)
 	}
+	if c.Size == 48 {
+		// the other exported entry that decodes a 32-word phrase: the Dilithium wallet constructor must refuse it too
+		// (an error or one of the explicit messages), never build a key from it
+		var d *dilithium.Dilithium
+		var err error
+		oc := ev.Try(func() { d, err = dilithium.NewDilithiumFromMnemonic(c.Phrase) })
+		if !oc.Panicked && err == nil && d != nil {
+			return "malformed/accepted-by-constructor", fmt.Sprintf("dilithium.NewDilithiumFromMnemonic built a key (seed %x) from a phrase the codec refuses", d.GetSeed())
+		}
+		if oc.Panicked && !oc.IsString {
+			return "malformed/runtime-fault", fmt.Sprintf("NewDilithiumFromMnemonic: refusal is not one of the library's explicit messages: %s", oc)
+		}
+	}
 	return "", ""
 }
 
 func TestMalformed(t *testing.T) {
 	r := ev.New(t, prop, "TestMalformed")
-	r.Rule("rapid: a valid 32- or 34-word phrase damaged by ONE named edit (unknown word by typo/prefix/suffix - re-drawn until it is not a list word -, upper/mixed case, double/leading/trailing space, tab/newline/NBSP/comma separators, word removed/added, 30/36 words, phrase given to the other size's decoder, empty, only spaces, look-alike letter) must be refused with an explicit message and never decoded; non-trivial = every case, distinct by (edit, phrase)")
+	r.Rule("rapid: a valid 32- or 34-word phrase damaged by ONE named edit (unknown word by typo/prefix/suffix - re-drawn until it is not a list word -, upper/mixed case, ONE letter upper-cased or replaced by a byte next to the letter range, a token outside the list's alphabetical range, a code point whose low byte is the original letter, double/leading/trailing space, tab/newline/NBSP/comma separators, word removed/added, 30/36 words, phrase given to the other size's decoder, empty, only spaces, look-alike letter) must be refused with an explicit message and never decoded (32-word phrases also by dilithium.NewDilithiumFromMnemonic, which must not build a key); non-trivial = every case, distinct by (edit, phrase)")
 	checks := r.PerShard(r.Pick(12000, 300000))
 	r.Rapid(t, "mal", checks, func(rt *rapid.T) {
 		size := rapid.SampledFrom([]int{48, 51}).Draw(rt, "size")
@@ -322,6 +375,33 @@ func TestMalformed(t *testing.T) {
 					break
 				}
 			}
+			c.Phrase = join()
+		case "one-letter-upper-inside":
+			w := []byte(ws[pos])
+			i := rapid.IntRange(0, len(w)-1).Draw(rt, "i")
+			w[i] -= 32
+			ws[pos] = string(w)
+			c.Phrase = join()
+		case "one-letter-other-byte":
+			w := []byte(ws[pos])
+			i := rapid.IntRange(0, len(w)-1).Draw(rt, "i")
+			w[i] = rapid.SampledFrom(nearLetterBytes).Draw(rt, "byte")
+			ws[pos] = string(w)
+			c.Phrase = join()
+		case "rune-low-byte-is-the-letter":
+			// a letter replaced by the code point U+0100..U+FF00 + letter (Latin Extended-A "s with caron" U+0161 ends
+			// in 0x61 = 'a'): a decoder that narrows runes to bytes reads the original letter
+			w := ws[pos]
+			i := rapid.IntRange(0, len(w)-1).Draw(rt, "i")
+			hi := rapid.SampledFrom([]int{0x100, 0x200, 0x400, 0x1e00, 0x2100, 0x4e00, 0xff00, 0x10000, 0x1f600}).Draw(rt, "plane")
+			ws[pos] = w[:i] + string(rune(hi+int(w[i]))) + w[i+1:]
+			c.Phrase = join()
+		case "token-outside-list-order":
+			tok := rapid.SampledFrom(outsideTokens).Draw(rt, "tok")
+			if inList(tok) {
+				tok += "{"
+			}
+			ws[pos] = tok
 			c.Phrase = join()
 		case "upper-case":
 			ws[pos] = strings.ToUpper(ws[pos])
@@ -432,7 +512,9 @@ func TestMalformed(t *testing.T) {
 			ws[pos] = rep
 			c.Phrase = join()
 		}
+		r.Pending(c) // a decoder that never returns is reported after the driver has re-run the phrase alone
 		key, msg := checkMalformed(c)
+		r.Done()
 		r.Eval(1)
 		r.Count("edit_"+kind, 1)
 		r.NonTrivial(kind, c.Size, c.Phrase)
